@@ -136,8 +136,17 @@ def _nan_list():
     return not (cls().parse(bytes(m)) == m)
 
 
+def _empty_entry():
+    schema = [bpgen.M("M0", [bpgen.F("m", 1, "map", mapK="string", mapV="bytes")])]
+    cls = bpgen.build_bp(schema)[0]
+    m = cls(m={"": b""})
+    return not (cls().parse(bytes(m)) == m)
+
+
 def replay_known(chk, entry):
     w = entry["witness"]
+    if w.get("kind") == "empty-map-entry":
+        return _empty_entry()
     if w.get("kind") == "nan-list":
         return _nan_list()
     if w.get("kind") == "negative-enum":
